@@ -128,7 +128,9 @@ impl TypeCheckAnalysis for TyExpression {
                 }
             }
             TyExpressionVariant::ArrayExplicit { .. } => {
-                self.as_array_unify_elements(handler, ctx.engines);
+                // The elements that do not have the element type were already reported
+                // when the array was type checked.
+                self.as_array_unify_elements(&Handler::default(), ctx.engines);
             }
             _ => {}
         }
